@@ -338,6 +338,16 @@ mk B27; d=$D
 edit "$d/graph/graphalg/order.go" 's.replace("i < j; i, j = i+1, j-1 {", "i+2 < j; i, j = i+1, j-1 {")'
 expect B27 "$d" C19 tie_failed tie_Reverse
 
+echo "== H16 harmless: intersect compares with > and uses temporaries"
+mk H16; d=$D
+edit "$d/graph/graphalg/dom.go" 's.replace("\t\tfor poNum[b1] < poNum[b2] {\n\t\t\tb1 = idom[b1]\n\t\t}", "\t\tfor poNum[b2] > poNum[b1] {\n\t\t\tup := idom[b1]\n\t\t\tb1 = up\n\t\t}")'
+expect H16 "$d" C19 ok
+
+echo "== B28 breaking: intersect moves the wrong finger in the second loop"
+mk B28; d=$D
+edit "$d/graph/graphalg/dom.go" 's.replace("\t\tfor poNum[b2] < poNum[b1] {\n\t\t\tb2 = idom[b2]", "\t\tfor poNum[b2] < poNum[b1] {\n\t\t\tb2 = idom[b1]")'
+expect B28 "$d" C19 tie_failed tie_intersect
+
 if [ $FULL = 1 ]; then
   echo "== full check on B1: both ties report (correspondence finds a failing input)"
   out=$(VERIF_REPO="$B1" bin/check C13 quick 2>&1); rc=$?
